@@ -254,7 +254,17 @@ def break_program(rnd, files):
     name = rnd.choice(fresh or sorted(files))
     text = files[name]
     lines = text.split("\n")
-    kind = rnd.choice(["undefined", "duplicate", "syntax", "type", "missing_import", "bad_call", "type"])
+    kind = rnd.choice(["undefined", "duplicate", "syntax", "type", "missing_import", "bad_call", "type",
+                       "drop_members", "drop_members", "extra_members"])
+    # struct literals with at least two `name = value` members on one line
+    lits = []
+    for i, l in enumerate(lines):
+        for m in re.finditer(r"\b((?:imp\d\.)?S\d+)\.\{ ([^{}]*) \}", l):
+            parts = [x for x in m.group(2).split(", ") if re.match(r"^m\d+ = ", x)]
+            if len(parts) >= 3 and ", ".join(parts) == m.group(2):
+                lits.append((i, m, parts))
+    if kind in ("drop_members", "extra_members") and not lits:
+        kind = "type"
     cand = [i for i, l in enumerate(lines) if "emit(" in l and "::" not in l]
     defs = [i for i, l in enumerate(lines) if re.match(r"^[A-Za-z_]\w* :", l)]
     if kind == "undefined" and cand:
@@ -273,6 +283,18 @@ def break_program(rnd, files):
             lines[i] = lines[i].replace(": i64 :", ": bool :", 1)
         else:
             lines.append("zz_bad : bool : 12;")
+    elif kind == "drop_members":
+        # several members of one literal are missing: one diagnostic each, in a fixed order
+        i, m, parts = rnd.choice(lits)
+        keep = rnd.randint(0, len(parts) - 2)
+        kept = rnd.sample(parts, keep)
+        kept = [x for x in parts if x in kept]
+        lines[i] = lines[i][:m.start(2)] + ", ".join(kept) + lines[i][m.end(2):]
+    elif kind == "extra_members":
+        # several members that the struct does not have
+        i, m, parts = rnd.choice(lits)
+        extra = ["zz%d = %d" % (k, k) for k in range(rnd.randint(2, 4))]
+        lines[i] = lines[i][:m.start(2)] + ", ".join(parts + extra) + lines[i][m.end(2):]
     elif kind == "missing_import":
         lines.insert(0, 'nope :: #import("does_not_exist.capy");')
     else:
